@@ -359,7 +359,7 @@ fn check_dict(ctx: &mut Ctx, rng: &mut Rng, bc: &BytesColumn, exp: &[Vec<Vec<u8>
 }
 
 /// model cross-decoding of a real column file: cardinality byte, optional index, start offsets, values
-fn cross_decode(ctx: &mut Ctx, rng: &mut Rng, handle: &DynamicColumnHandle, exp_u64: &[Vec<u64>], what: &str, case: &Value) {
+fn cross_decode(ctx: &mut Ctx, rng: &mut Rng, handle: &DynamicColumnHandle, exp_u64: &[Vec<u64>], ip_flat: Option<Vec<u128>>, what: &str, case: &Value) {
     let raw = match handle.file_slice().read_bytes() { Ok(b) => b.as_slice().to_vec(), Err(_) => return };
     let mut col: &[u8] = &raw;
     if matches!(handle.column_type(), ColumnType::Bytes | ColumnType::Str) {
@@ -418,7 +418,27 @@ fn cross_decode(ctx: &mut Ctx, rng: &mut Rng, handle: &DynamicColumnHandle, exp_
         }
         c => modelv(ctx, "C08:column-layout", format!("{what}: unknown cardinality code {c}"), case),
     }
-    if handle.column_type() == ColumnType::IpAddr { return; }
+    if handle.column_type() == ColumnType::IpAddr {
+        // compact-space codec: the model opens the real bytes (header, footer, compact space) and maps
+        // the bit-packed compact values back to u128
+        let Some(ips) = ip_flat else { return };
+        let idxs = probe_indices(rng, ips.len(), 600, 60);
+        let r = ctx.model.ask(&format!("C08 decode128 {} {}", hex(values), nat_list(&idxs)));
+        let ok = match r.split_once(';') {
+            Some((head, vals)) => {
+                let h: Vec<&str> = head.split(' ').collect();
+                let exp: Vec<String> = idxs.iter().map(|&i| ips[i].to_string()).collect();
+                let exp_txt = if exp.is_empty() { "-".to_string() } else { exp.join(",") };
+                let (mn, mx) = (ips.iter().min().copied().unwrap_or(0), ips.iter().max().copied().unwrap_or(0));
+                h.len() == 5 && h[0] == ips.len().to_string() && h[1] == mn.to_string() && h[2] == mx.to_string() && vals == exp_txt
+            }
+            None => false,
+        };
+        if ok { ctx.report.count("cross-decode:codec:compact-space"); } else {
+            modelv(ctx, "C08:ip-column-cross-decode", format!("{what}: model decode of the real compact-space column differs from the indexed addresses ({})", &r[..r.len().min(60)]), case);
+        }
+        return;
+    }
     let idxs = probe_indices(rng, flat.len(), 800, 80);
     match model_decode(ctx, values, &idxs) {
         Some((codec, _, _, _, rows, mv)) if rows as usize == flat.len() && mv == idxs.iter().map(|&i| flat[i]).collect::<Vec<_>>() => {
@@ -458,7 +478,10 @@ pub fn check_dynamic(ctx: &mut Ctx, rng: &mut Rng, handle: Option<&DynamicColumn
         }
     };
     if let (Some(h), Some(rows)) = (handle, &u64rows) {
-        cross_decode(ctx, rng, h, rows, what, case);
+        let ip_flat: Option<Vec<u128>> = if let DynamicColumn::IpAddr(_) = dc {
+            Some(exp.iter().flatten().map(|v| if let Val::Ip(x) = v { *x } else { 0 }).collect())
+        } else { None };
+        cross_decode(ctx, rng, h, rows, ip_flat, what, case);
     }
     u64rows
 }
@@ -574,7 +597,24 @@ pub fn case_columnar(ctx: &mut Ctx, seed: u64, case: &Value) {
             Ok(d) => d,
             Err(e) => { oracle(ctx, "C08:column-open", format!("{what}: open failed: {e}"), case); continue; }
         };
-        check_dynamic(ctx, &mut rng, Some(h), &dc, &exp, &what, case);
+        let u64rows = check_dynamic(ctx, &mut rng, Some(h), &dc, &exp, &what, case);
+        // the model of the writer (operation log -> cardinality detection -> index builder) predicts the
+        // cardinality of the written column and, for u64-representable values, the rows read back
+        if num_docs <= 1500 {
+            let txt = match &u64rows {
+                Some(r) if !matches!(c.cat, Cat::Ip) => rows_text(r),
+                _ => rows_text(&c.rows.iter().map(|r| vec![0u64; r.len()]).collect::<Vec<_>>()),
+            };
+            let resp = ctx.model.ask(&format!("C08 writer {txt}"));
+            let real_card = match dc.get_cardinality() { Cardinality::Full => "full", Cardinality::Optional => "optional", Cardinality::Multivalued => "multivalued" };
+            let (mc, mrows) = resp.split_once(';').unwrap_or(("", ""));
+            if mc != real_card {
+                modelv(ctx, "C08:writer-cardinality", format!("{what}: written with cardinality {real_card}, the model of ColumnWriter detects {mc}"), case);
+            } else if mrows != txt {
+                modelv(ctx, "C08:writer-model-rows", format!("{what}: model writer pipeline does not read back its own rows"), case);
+            }
+            ctx.report.count("columnar:writer-model-compared");
+        }
     }
     ctx.report.count_n("columnar:columns-checked", expected_present);
     // sub-path listing (JSON-like dotted names)
